@@ -1286,8 +1286,29 @@ def rule_restart_geometry_loop_in_range(eng, rep, rule="C07-12.restart-geometry-
         if not reads:
             continue
         found += 1
+        # how many entries does the list have?  L = argsort(V), V = X[:N]  ->  N
+        length_src = None
+        for st in eng.prog.own_nodes(sr):
+            if isinstance(st, ast.Assign) and len(st.targets) == 1 and isinstance(st.targets[0], ast.Name) and st.targets[0].id == c1[0] and isinstance(st.value, ast.Call) \
+                    and st.value.args and isinstance(st.value.args[0], ast.Name):
+                vname = st.value.args[0].id
+                for st2 in eng.prog.own_nodes(sr):
+                    if isinstance(st2, ast.Assign) and len(st2.targets) == 1 and isinstance(st2.targets[0], ast.Name) and st2.targets[0].id == vname \
+                            and isinstance(st2.value, ast.Subscript) and isinstance(st2.value.slice, ast.Slice) and st2.value.slice.lower is None and st2.value.slice.upper is not None:
+                        length_src = st2.value.slice.upper
+        from .common import capacity_fields
+        caps = set(capacity_fields(eng))
         for (cut, lim) in per_branch:
             site = eng.where(sr, lim[3])
+            if length_src is not None and lim[1] != ekey(length_src):
+                base_field = lim[1].split(".")[-1]
+                if base_field in caps:
+                    rep.bad(rule, site, "controller.Controller.soft_restart|limit-is-the-capacity|%s" % base_field,
+                            "the list has `%s` entries (the points held now) but the loop is bounded by `%s`, the capacity of the model: during the growing phase the model holds "
+                            "fewer points than its capacity, so a soft restart indexes past the end of the list (IndexError out of solve)" % (short(length_src, 30), lim[1]))
+                    continue
+                rep.unknown(rule, site, "the list has `%s` entries but the loop is bounded by `%s`" % (short(length_src, 30), lim[1]))
+                continue
             # slice upper bound must be g + a (so that g entries are available when there are enough points)
             up_ok = True
             if cut[1] and cut[2] is not None:
@@ -1924,6 +1945,148 @@ def rule_while_loops_are_bounded(eng, rep, rule="C07-18.every-while-loop-has-a-c
     rep.require_count(rule, "while loops reachable from solve", nloops, 6)
 
 
+# --------------------------------------------------------------------------------------------- C07-19
+def rule_exit_results_are_tested_before_the_loop_goes_round(eng, rep, rule="C07-19.an-exit-returned-by-a-progress-call-is-tested-before-the-next-iteration"):
+    """A call that may evaluate reports 'could not' (budget exhausted, linear algebra failed) through the exit object it returns.  If the main loop went round without
+    looking at it, the next iteration would ask again and get the same answer: no progress, no return.  For every statement of the main loop that binds `exit_info`
+    from a call: every path from it to the head of the loop (or to the next such binding) passes a test of `exit_info` against None."""
+    from .anchors import anchors
+    A = anchors(eng)
+    sm = A.solve_main
+    cfg = eng.cfg(sm)
+    whiles = [(h, st) for (h, kind, st) in cfg.loops if kind == "while"]
+    if len(whiles) != 1:
+        rep.unknown(rule, eng.where(sm), "expected one main loop in solve_main")
+        return
+    h, _w = whiles[0]
+    body = cfg.loop_nodes(h)
+    var = "exit_info"
+    binds, tests = [], set()
+    for n in body:
+        a = cfg.ast_of(n)
+        if cfg.kind(n) == "stmt" and isinstance(a, ast.Assign) and isinstance(a.value, ast.Call) and var in [x for t in a.targets for x in assigned_names(t)]:
+            binds.append(n)
+        if cfg.kind(n) == "cond":
+            at = atom_of(a, True)
+            if at.op in ("is", "isnot") and isinstance(at.lhs, ast.Name) and at.lhs.id == var and is_none(at.rhs):
+                tests.add(n)
+    if not rep.require_count(rule, "bindings of exit_info from a call in the main loop", len(binds), 8):
+        return
+    for b in sorted(binds):
+        others = [x for x in binds if x != b]
+        site = eng.where(sm, cfg.ast_of(b))
+        # a path to the loop head, or to another binding, that avoids every test
+        p = cfg.path_avoiding(b, h, tests | set(others))
+        p2 = None
+        for o in others:
+            q = cfg.path_avoiding(b, o, tests | set(x for x in others if x != o))
+            if q is not None and h not in q:
+                p2 = q
+                break
+        if p is None and p2 is None:
+            rep.ok(rule, site, "`%s`: the exit is tested on every path before the loop goes round or exit_info is bound again" % short(cfg.ast_of(b), 50))
+        else:
+            rep.bad(rule, site, "solver.solve_main|exit-not-tested|%s" % short(cfg.ast_of(b).value.func, 30),
+                    "`%s`: the returned exit can be %s without having been tested: an exhausted budget or a failed step is ignored and the loop asks again"
+                    % (short(cfg.ast_of(b), 50), "overwritten" if p is None else "carried into the next iteration"), path=cfg.describe_path(p or p2))
+
+
+# --------------------------------------------------------------------------------------------- C07-20
+def rule_orthogonalised_vectors_are_tested_before_normalising(eng, rep, rule="C07-20.a-vector-orthogonalised-against-a-basis-is-tested-before-it-is-normalised"):
+    """v := v - (v.q) q for every column q of an orthonormal basis leaves exactly 0 when the basis already spans the space (n = 1 with one direction; a regression set
+    npt > n+1 that is still growing once it holds n directions).  scipy.linalg.norm returns a Python float, so `step / norm(v)` then raises ZeroDivisionError out of
+    solve.  Every division by the norm of a vector that may come from such a Gram-Schmidt step must lie behind a test of that norm on every path from the step."""
+    reach = eng.reachable_from_solve()
+    nsite = 0
+
+    def base_name(e):
+        while isinstance(e, ast.Subscript):
+            e = e.value
+        return e.id if isinstance(e, ast.Name) else None
+
+    def is_norm_call(e):
+        return isinstance(e, ast.Call) and ekey(e.func).split(".")[-1] == "norm" and e.args
+
+    for fid in sorted(reach):
+        fi = eng.prog.functions[fid]
+        if fi.is_lambda:
+            continue
+        gs_defs = {}        # name -> [cfg nodes of Gram-Schmidt steps]
+        cfg = None
+        for node in eng.prog.own_nodes(fi):
+            if isinstance(node, ast.Assign) and len(node.targets) == 1 and isinstance(node.value, ast.BinOp) and isinstance(node.value.op, ast.Sub):
+                t = node.targets[0]
+                v = node.value
+                if ekey(v.left) == ekey(t) and isinstance(v.right, ast.BinOp) and isinstance(v.right.op, ast.Mult):
+                    parts = [v.right.left, v.right.right]
+                    dots = [p for p in parts if isinstance(p, ast.Call) and ekey(p.func).split(".")[-1] == "dot" and len(p.args) == 2]
+                    if dots:
+                        other = [p for p in parts if p is not dots[0]][0]
+                        if ekey(t) in [ekey(a) for a in dots[0].args] and ekey(other) in [ekey(a) for a in dots[0].args]:
+                            cfg = cfg or eng.cfg(fi)
+                            gs_defs.setdefault(base_name(t), []).append(cfg.cfg_node(node))
+        if not gs_defs:
+            continue
+        # names that may hold an orthogonalised vector: the targets, and copies of them
+        tainted = set(gs_defs)
+        for _ in range(3):
+            for node in eng.prog.own_nodes(fi):
+                if isinstance(node, ast.Assign) and len(node.targets) == 1 and isinstance(node.targets[0], ast.Name):
+                    src = node.value
+                    if isinstance(src, ast.Call) and isinstance(src.func, ast.Attribute) and src.func.attr == "copy":
+                        src = src.func.value
+                    if base_name(src) in tainted and isinstance(src, (ast.Name, ast.Subscript)):
+                        tainted.add(node.targets[0].id)
+        tests = set()
+        for n in cfg.nodes_of_kind("cond"):
+            for sub in ast.walk(cfg.ast_of(n)):
+                if is_norm_call(sub) and base_name(sub.args[0]) in tainted:
+                    tests.add(n)
+                elif isinstance(sub, ast.Name):
+                    # a local defined as norm(tainted)
+                    try:
+                        for dn in cfg.defs_reaching(cfg.ast_of(n), sub.id):
+                            ds = cfg.ast_of(dn)
+                            if isinstance(ds, ast.Assign) and is_norm_call(ds.value) and base_name(ds.value.args[0]) in tainted:
+                                tests.add(n)
+                    except Exception:
+                        pass
+        for node in eng.prog.own_nodes(fi):
+            if not (isinstance(node, ast.BinOp) and isinstance(node.op, ast.Div)):
+                continue
+            den = node.right
+            if isinstance(den, ast.Name):
+                try:
+                    defs = cfg.defs_reaching(cfg.ast_of(cfg.cfg_node(node)), den.id)
+                except Exception:
+                    defs = []
+                vals = [cfg.ast_of(d).value for d in defs if isinstance(cfg.ast_of(d), ast.Assign)]
+                den2 = vals[0] if len(vals) == 1 else None
+            else:
+                den2 = den
+            if not (is_norm_call(den2) and base_name(den2.args[0]) in tainted):
+                continue
+            nsite += 1
+            here = cfg.cfg_node(node)
+            site = eng.where(fi, cfg.ast_of(here) if isinstance(cfg.ast_of(here), ast.stmt) else node)
+            bad = None
+            for nm, dnodes in gs_defs.items():
+                for dn in dnodes:
+                    p = cfg.path_avoiding(dn, here, tests)
+                    if p is not None:
+                        bad = (nm, dn, p)
+                        break
+                if bad:
+                    break
+            if bad:
+                rep.bad(rule, site, "%s|norm-of-orthogonalised-vector-untested|%s" % (fid, bad[0]),
+                        "`%s` divides by the norm of `%s`, which `%s` may have reduced to exactly zero (the basis spans the space: n = 1, or a growing regression set that already "
+                        "holds n directions): ZeroDivisionError out of solve" % (short(node, 50), bad[0], short(cfg.ast_of(bad[1]), 50)), path=cfg.describe_path(bad[2]))
+            else:
+                rep.ok(rule, site, "`%s`: every path from the orthogonalisation passes a test of the norm" % short(node, 50))
+    rep.require_count(rule, "normalisations of orthogonalised vectors", nsite, 2)
+
+
 def run(eng, rep):
     rep.explain("C07: call conformance of every resolved internal call (T10); shape of the graceful input-error path in solve (T2); "
                 "guard present for each documented invalid-argument class (frozen table, matched on normalised conditions); "
@@ -1956,5 +2119,7 @@ def run(eng, rep):
     rep.guarded(rule_float_to_int_handlers_are_two_sided, eng, rep)
     rep.guarded(rule_main_loop_cycles_make_progress, eng, rep)
     rep.guarded(rule_while_loops_are_bounded, eng, rep)
+    rep.guarded(rule_exit_results_are_tested_before_the_loop_goes_round, eng, rep)
+    rep.guarded(rule_orthogonalised_vectors_are_tested_before_normalising, eng, rep)
     from . import c20
     c20.rule_str_never_formats_none(eng, rep, rule="C07-8.printing")
